@@ -743,14 +743,14 @@ func ruleRangeStringDecode(c *Ctx, rule string) {
 }
 
 // S4 — expression switch: the table used for direct dispatch and the order of clauses.
-//   * caseHelper.AllConst is monotone: assigned only `false` (it starts true in the literal built by Switch);
-//   * caseHelper.add records a constant in GotoMap only under `if AllConst`, and nothing else writes the
+//   - caseHelper.AllConst is monotone: assigned only `false` (it starts true in the literal built by Switch);
+//   - caseHelper.add records a constant in GotoMap only under `if AllConst`, and nothing else writes the
 //     elements of GotoMap or ConstMap: the dispatch table holds exactly the constants written before the first
 //     non-constant case expression, whose evaluation (and side effects) a direct jump would skip;
-//   * switchGotoMap / switchGotoSlice build their tables from GotoMap, never from ConstMap;
-//   * the jump into a default clause is emitted after every clause was compiled, to defaulti+1, and a default
+//   - switchGotoMap / switchGotoSlice build their tables from GotoMap, never from ConstMap;
+//   - the jump into a default clause is emitted after every clause was compiled, to defaulti+1, and a default
 //     clause reached in sequence skips its own body (header jumps to the end index assigned after the body);
-//   * a case body ends with either the fall-through statement (only when its last statement is `fallthrough`
+//   - a case body ends with either the fall-through statement (only when its last statement is `fallthrough`
 //     and it is not the last clause) or the jump to the switch's Break target in the same frame.
 func ruleSwitchDispatch(c *Ctx, rule string) {
 	pk := c.P.Pkg("fast")
